@@ -106,6 +106,9 @@ KERNEL_Q = [
     "quantized_po2(4,1)",
     "quantized_po2(3,max_value=2)",
     "quantized_relu_po2(4)",
+    # not idempotent (q(q(w)) != q(w)): makes "applied once" observable
+    "quantized_tanh(4)",
+    "quantized_ulaw(4,0,1)",
 ]
 BIAS_Q = [
     None,
@@ -120,6 +123,7 @@ BIAS_Q = [
     "ternary(alpha=1)",
     "ternary()",
     "binary(alpha=1)",
+    "quantized_tanh(5)",
 ]
 ACT_Q = [
     None,
